@@ -1,4 +1,10 @@
-(* Python's  text.encode("utf-8")  on a list of code points.
+(* Python's text encoders on a list of code points.
+
+   text.encode("latin-1"): the identity when every code point is below 256, otherwise
+   UnicodeEncodeError (None).  This is what AsyncFIXConnection.send_msg applies to the encoder's
+   text before the transport write (since the repair of D9).
+
+   text.encode("utf-8") (what send_msg used before that repair):
    1-4 byte forms; a surrogate (D800-DFFF) or a value above 10FFFF has no encoding
    (Python raises UnicodeEncodeError for a lone surrogate; values above 10FFFF cannot occur in
    a Python str): the result is None.  No proofs here. *)
@@ -26,3 +32,6 @@ Fixpoint utf8 (s : str) : option str :=
       | _, _ => None
       end
   end.
+
+Definition latin1 (s : str) : option str :=
+  if forallb (fun c => c <? 256) s then Some s else None.
